@@ -10,10 +10,10 @@ import numpy as np
 from ..common import Slice, inds_pairs, inds_tok, pop_pairs, run_driver
 
 MODULE = 'PyhmsVerif.Props.C12Run'
-THEOREMS = ['C12.sea_never_loses', 'C12.sea_size', 'C12.de_pointwise', 'C12.deSelect_perm', 'C12.de_count_dominates', 'C12.de_size', 'C12.C12_run', 'C12.C12_best_never_worse', 'PairChain.reachable_pairs', 'PairChain.step_inv', 'C12.elitePair_spec', 'EngineDE.deGen_size']
-EXTRA_MODULES = ['PyhmsVerif.Props.EngineDE']
+THEOREMS = ['C12.sea_never_loses', 'C12.sea_size', 'C12.de_pointwise', 'C12.deSelect_perm', 'C12.de_count_dominates', 'C12.de_size', 'C12.C12_run', 'C12.C12_best_never_worse', 'PairChain.reachable_pairs', 'PairChain.step_inv', 'C12.elitePair_spec', 'EngineDE.deGen_size', 'MWProps.ccGreedy_nodup', 'MWProps.repeated_length', 'MWProps.mwea_size']
+EXTRA_MODULES = ['PyhmsVerif.Props.EngineDE', 'PyhmsVerif.Props.Multiwinner']
 LEVEL = "proof"
-LEVEL_TEXT = 'Theorems for all populations, tie patterns and both directions: SEA selection with >=1 elite never loses the best (for every admissible argsort tie-break), DE/SHADE replacement dominates index-wise and in every order statistic (counting form), sizes preserved; kernels tied to Population.topk / select_new_population / DE.run / SHADE.run by differential runs; consecutive generations of real demes are monitored on traced runs. NEW (run level): C12_run — in every reachable state, for every deme of a population engine and every consecutive pair of generations (a, b) of its history (inside a metaepoch and across metaepoch boundaries): on an elitist level no individual of a is strictly better than every individual of b, on a DE/SHADE level no order statistic gets worse, and b has the configured size (CMA: the size of a); C12_best_never_worse: the best fitness never gets worse from one generation to the next. Proved through a generic inductive invariant over consecutive generation pairs (PairChain) whose step obligation is discharged by the model acceptance test genOk with the parents the model threaded. ENGINE LEVEL (Model/Engine.lean, Props/EngineDE.lean): one whole generation of DE.run / SHADE.run is in the model, deterministic given the generator draws (donor arithmetic in binary64, reflect repair, crossover mask incl. the row-zeroing quirk, fitness carry-over, which rows are evaluated, replacement), and is diffed bit-exactly against the real engines with recorded draws: deGen_size — one trial per parent, the new population has the parents size; the replacement is Select.deSelect, so de_pointwise / de_count_dominates apply to every whole generation.'
+LEVEL_TEXT = 'Theorems for all populations, tie patterns and both directions: SEA selection with >=1 elite never loses the best (for every admissible argsort tie-break), DE/SHADE replacement dominates index-wise and in every order statistic (counting form), sizes preserved; kernels tied to Population.topk / select_new_population / DE.run / SHADE.run by differential runs; consecutive generations of real demes are monitored on traced runs. NEW (run level): C12_run — in every reachable state, for every deme of a population engine and every consecutive pair of generations (a, b) of its history (inside a metaepoch and across metaepoch boundaries): on an elitist level no individual of a is strictly better than every individual of b, on a DE/SHADE level no order statistic gets worse, and b has the configured size (CMA: the size of a); C12_best_never_worse: the best fitness never gets worse from one generation to the next. Proved through a generic inductive invariant over consecutive generation pairs (PairChain) whose step obligation is discharged by the model acceptance test genOk with the parents the model threaded. ENGINE LEVEL (Model/Engine.lean, Props/EngineDE.lean): one whole generation of DE.run / SHADE.run is in the model, deterministic given the generator draws (donor arithmetic in binary64, reflect repair, crossover mask incl. the row-zeroing quirk, fitness carry-over, which rows are evaluated, replacement), and is diffed bit-exactly against the real engines with recorded draws: deGen_size — one trial per parent, the new population has the parents size; the replacement is Select.deSelect, so de_pointwise / de_count_dominates apply to every whole generation. MWEA SELECTION (Model/Multiwinner.lean, Props/Multiwinner.lean): MultiwinnerRepeatedSelection with the CCGreedy voting scheme is in the model (Borda scores from the positions in the preference lists, greedy rounds with the strict-improvement rule, n//k+1 elections, concatenation; groups, preference lists and shuffles are environment) and is diffed against the real operator with recorded draws: repeated_length / mwea_size — n//k+1 elections of k distinct winners give at least n individuals, after any admissible topk(n) cut exactly n: the population size is constant for every committee size (dividing n or not).'
 LEVEL_NOTE = "Trusted: Lean kernel + standard axioms; objective values not NaN; np.argsort returns some ascending order (ties arbitrary). The lift from one selection step to every consecutive generation pair of a run relies on C11 (generations chain) which is checked by trace refinement."
 TECHNIQUE = "Lean 4 proof (relational spec covering all tie-breaks) + differential correspondence + run monitors"
 RULE = "component cases: random populations (size 2-14, dim 1-4) with plateaus/ties/+-inf sentinels, both directions; non-trivial = fitness tie at the selection cut or a trial tying its parent or a sentinel present; distinct by the driver line. run cases: consecutive generation pairs of real elitist demes"
@@ -196,6 +196,7 @@ def run(ctx):
     from .. import engine
 
     out.append(engine.slice_engine(ctx, ctx.rng(81), ctx.size(250, 3000), only="C12/"))
+    out.append(engine.slice_mwea(ctx, ctx.rng(87), ctx.size(150, 2000), only="C12/"))
     return out
 
 
